@@ -1505,8 +1505,29 @@ def translate_all_writers(reader=None, only=None):
             continue
         d = {"ctx": ctx, "rust_type": name, "file": os.path.relpath(path, REPO)}
         try:
-            d["tokens"] = tr.ops_to_tokens(tr.container(ctx, path, name)) + ["end"]
+            ops = tr.container(ctx, path, name)
+            check_self_size(ops)
+            d["tokens"] = tr.ops_to_tokens(ops) + ["end"]
         except Untranslated as ex:
             d["untranslated"] = str(ex)
         out.append(d)
     return out
+
+
+def check_self_size(ops):
+    """a `self.size` field is written as `(self.size() - N)`: the model's size field holds the number of bytes AFTER the field
+    (`encMembers_selfSize`, Thm/C01d.lean), so N must be the bytes written up to and including the field — which therefore all have a static size"""
+    before = 0
+    for o in ops:
+        if o[0] == "f" and o[2][0] == "s":
+            own = fixed_size(o[3])
+            if before is None or own is None:
+                raise Untranslated("self.size field after a member without a static size")
+            if int(o[2][1]) != before + own:
+                raise Untranslated(f"the self.size field is written as self.size() - {o[2][1]} although {before + own} bytes are written up to and including it")
+            return
+        if before is not None:
+            w = fixed_size(o[3]) if o[0] == "f" else None
+            if o[0] in ("lo48", "hi48"):
+                w = 3
+            before = None if w is None else before + w
